@@ -67,6 +67,8 @@ def decode_reply(rpy):
 
 
 def do_one(kind, session, c0, c7, options, v, routed):
+    if kind not in ('write_tag', 'multiple'):
+        v = 1234            # the written value only matters to C05/C03; kept symbolic for two kinds
     sim.attribute('A').value[:] = [1, 2, 3, 4]
     req, svc, good = req_of(kind, v)
     ctx = [c0, 1, 2, 3, 4, 5, 6, c7]
@@ -173,7 +175,7 @@ def do_sequence(kinds, ctxs, v, cuts, interesting=True):
         # frame boundaries -1/0/+1, the header/payload boundary of each frame and a few interior points
         cand, at = [0], 0
         for f in frames:
-            cand += [at + 1, at + 23, at + 24, at + 25, at + len(f) // 2, at + len(f) - 1, at + len(f)]
+            cand += [at + 1, at + 24, at + len(f) - 1, at + len(f)]
             at += len(f)
         cand = sorted(set(c for c in cand if 0 <= c <= len(stream)))
         pos = sorted(cand[concretize(c, len(cand))] for c in cuts)
@@ -204,7 +206,7 @@ for kinds, tier in SEQS:
     define(globals(), 'C06', 'pipelined_onecut_%s' % nm, cs + ['v', 'cut0'], "return do_sequence(%r, [%s], v, [cut0], True)" % (kinds, ", ".join(cs)),
            [" and ".join('0 <= %s <= 255' % c for c in cs), '-32768 <= v <= 32767 and 0 <= cut0'],
            tier=tier, timeout=3000, path_timeout=300, drives=DRIVES + ['cpppo.server.enip.main.enip_srv_tcp'], stubs=STUBS,
-           symbolic=['c*: the sender context of each request', 'v', 'cut0: one chunk boundary chosen among ~20 structurally interesting offsets (frame boundaries +-1, header/payload boundary, mid-frame)'],
+           symbolic=['c*: the sender context of each request', 'v', 'cut0: one chunk boundary chosen among ~12 structurally interesting offsets (first byte, header/payload boundary, last byte and end of every frame)'],
            bounds='Register + %r written to the connection in two chunks cut at every structurally interesting offset (or coalesced) through the real enip_srv_tcp: '
                   'one reply per request, in request order, each echoing its own context and answering its own service' % kinds, outside='every byte offset (thorough tier)')
     define(globals(), 'C06', 'pipelined_%s' % nm, cs + ['v', 'cut0', 'cut1'],
